@@ -6,10 +6,10 @@
 (* checks the model's own invariants in every state and emits each history  *)
 (* as a replay case for the real CLI.                                       *)
 (***************************************************************************)
-EXTENDS KReconcile, Json, IOUtils
+EXTENDS KCliText, Json, IOUtils
 
-VARIABLES seed, hist, R, ok
-vars == <<seed, hist, R, ok>>
+VARIABLES seed, hist, R, ok, file
+vars == <<seed, hist, R, ok, file>>
 
 Out  == IOEnv.KV_OUT
 Tier == IOEnv.KV_TIER
@@ -49,7 +49,8 @@ Seeds == <<
     "<<no such file>>",
     "2020-03-15\r\n    1h\n    2h Bar\n",
     "2020-03-13\r\n    1h\r\n\r\n2020-03-14\n    3h\n\r\n2020-03-16\r\n    1h\r\n",
-    "2020-03-14\n    22:00 - ? x\r\n        more\n\n2020-03-15\r\n\t9:00 - ?\n\t\tnote\r\n"
+    "2020-03-14\n    22:00 - ? x\r\n        more\n\n2020-03-15\r\n\t9:00 - ?\n\t\tnote\r\n",
+    "2020-03-15\n    8:00 - ???????????? long placeholder\n    -1h59m pause\n\n2020-03-16\n    1h\n"
 >>
 NSeeds == Len(Seeds)
 
@@ -159,8 +160,9 @@ CfgText(cfg) ==
     \o (IF cfg.rounding # 0 THEN "default_rounding = " \o NatStr(cfg.rounding) \o "m\n" ELSE "")
     \o (IF cfg.should # "" THEN "default_should_total = " \o cfg.should \o "\n" ELSE "")
 
-Step(c, now, cfg) == [args |-> ToArgs(c), now |-> Stamp(now, 0), ticks |-> [j \in 1..Len(c.ticks) |-> Stamp(now, c.ticks[j])],
-                      cmd |-> c, nowv |-> now, cfgv |-> cfg]
+Step(c, now, cfg, pred, before) ==
+    [args |-> ToArgs(c), now |-> Stamp(now, 0), ticks |-> [j \in 1..Len(c.ticks) |-> Stamp(now, c.ticks[j])],
+     cmd |-> c, nowv |-> now, cfgv |-> cfg, pred |-> pred, predpre |-> before]
 NoFile(s) == SeedText(s) = "<<no such file>>"
 CaseOf(s, h) == [kind |-> "cli", files |-> IF NoFile(s) THEN ("other.klg" :> "2020-03-15\n    1h\n") ELSE ("f.klg" :> SeedText(s)), cfg |-> CfgText(h[1].cfgv), parse |-> TRUE,
                  repeat |-> IF Mode = "clock" THEN 1 ELSE IF Full THEN 3 ELSE 2, cmds |-> h]
@@ -208,6 +210,7 @@ Data(text) == LET p == ParseDoc(text) IN IF p.ok /\ text # "<<no such file>>" TH
 
 Init == /\ seed \in SeedSet
         /\ hist = <<>>
+        /\ file = IF NoFile(seed) THEN "" ELSE SeedText(seed)
         /\ R = Data(SeedText(seed))
         /\ ok = (ParseDoc(SeedText(seed)).status = "Conforming" /\ ~NoFile(seed))
 NowAt(k) == [Now0 EXCEPT !.min = @ + 7 * k]       \* the clock advances between the commands of a history
@@ -234,13 +237,15 @@ Variants(c, k) ==
                THEN {<<Now2350, Cfg0>>, <<Now0002, Cfg0>>, <<Now0, CfgR>>, <<Now2350, CfgR>>} ELSE {})
          \cup (IF c.op \in {"start", "stop", "switch"} /\ c.summary = <<>> THEN {<<Now0, Cfg12>>, <<Now0, Cfg24>>} ELSE {})
          \cup (IF c.op \in {"track", "start", "create"} /\ c.summary = <<>> THEN {<<Now0, CfgS>>, <<Now0, CfgD>>, <<Now0, CfgSh>>} ELSE {})
+(* the file evolves by the text-level model KCliText; the abstract records are re-read from it *)
 Next == /\ Len(hist) < Depth
         /\ \E c \in Pool(Len(hist)) : \E v \in Variants(c, Len(hist)) :
               LET now == v[1]  cfg == v[2]
-                  m == IF ok THEN Model(c, R, now, cfg) ELSE [st |-> "fail"]
-              IN  /\ hist' = Append(hist, Step(c, now, cfg))
-                  /\ R' = IF m.st = "ok" THEN Apply(m, R) ELSE R
-                  /\ ok' = (ok /\ m.st # "unspec")
+                  x == IF ok THEN ExecText(c, file, now, cfg) ELSE [st |-> "unspec", text |-> file]
+              IN  /\ hist' = Append(hist, Step(c, now, cfg, x, file))
+                  /\ file' = x.text
+                  /\ R' = IF ok THEN Data(x.text) ELSE R
+                  /\ ok' = (ok /\ x.st # "unspec")
         /\ UNCHANGED seed
 
 Emit == Len(hist') = Depth =>
@@ -257,10 +262,19 @@ OneOpenRange == \A k \in 1..Len(R) : Cardinality({i \in 1..Len(R[k].entries) : R
 RangesOrdered == \A k \in 1..Len(R) : \A i \in 1..Len(R[k].entries) :
                     R[k].entries[i].kind = "range" => R[k].entries[i].a <= R[k].entries[i].b
 (* every permitted change is accepted by the model's own effect predicate, and a sorted file stays sorted *)
+(* the text-level model refines the record-level model, and satisfies the frame, atomicity and style predicates *)
+LastStep == hist'[Len(hist')]
 StepOK == [][\/ Len(hist') = Len(hist)
-             \/ LET c == hist'[Len(hist')].cmd
-                    now == hist'[Len(hist')].nowv
-                    m == IF ok THEN Model(c, R, now, hist'[Len(hist')].cfgv) ELSE [st |-> "fail"]
-                IN  IF m.st = "ok" THEN EffectOK(m, R, R') /\ (Sorted(R) => Sorted(R'))
-                    ELSE R' = R]_vars
+             \/ ~ok
+             \/ LET c == LastStep.cmd
+                    m == Model(c, R, LastStep.nowv, LastStep.cfgv)
+                    x == LastStep.pred
+                    PP == ParseDoc(file)
+                IN  /\ m.st = "ok" => x.st = "ok" /\ EffectOK(m, R, R') /\ (Sorted(R) => Sorted(R'))
+                    /\ m.st = "fail" => x.st = "fail" /\ file' = file
+                    /\ x.st = "ok" /\ m.st = "ok" =>
+                          /\ FrameOK(c, m, PP, PP.lines, SplitLines(file'))
+                          /\ StyleOK(c, LastStep.cfgv, m, PP, PP.lines, SplitLines(file'))
+                          /\ ParseDoc(file').ok]_vars
+FileValid == ok => ParseDoc(file).status # "Violating"
 =============================================================================
